@@ -155,7 +155,9 @@ fn check_declared(case: &LedgerCase, obs: &mut Obs) -> Verdict {
             use crate::model::Cause::*;
             let undeclared: Vec<HRow> = rows.iter().map(|r| { let mut c = r.clone(); c.sfl.clear(); c }).collect();
             if let Some(id) = super::c04::residue_class(rows, &model_for(&undeclared, None), msg) { let _ = id; return Verdict::Skip("rounding-residue-rejection(R5/R1b)".into()); }
-            let ok = match me.cause { SflMismatch => msg.contains("superficial loss was specified, but the difference"), SflOnNonLoss => msg.contains("but there is no capital loss"), _ => true };
+            // (the words are the tool's business; a rejection on account of the declared value will speak of the superficial loss)
+            let lower = msg.to_lowercase();
+            let ok = match me.cause { SflMismatch | SflOnNonLoss => lower.contains("superficial") || lower.contains("sfl"), _ => true };
             if !ok { return Verdict::Fail(format!("rejected for another reason than the model's ({:?}): {msg}\n{csv}", me.cause)); }
             obs.class(format!("rejected:{:?}", me.cause));
         }
